@@ -547,6 +547,31 @@ Proof.
   - congruence.
 Qed.
 
+(** regression witness of DEFECT C13_1 (fixed in /repo by ada8f84): the log the
+    unpatched code produced -- the first stream of a re-added name cancelled
+    although nobody asked for it -- is no longer a log of the model, and the
+    property monitor flags it *)
+Definition log_kf1 : list event :=
+  [EAddCalled; EAdd true; EDial true; EOpen true; ESend true; ERecv (RMsg (MUpdate 1)); CConnect;
+   CUpdate 1; ERemoveCalled; ERecv RCancel; CReset; EDone; CConnErr; CMonErr; ERemoveReturned true;
+   EAddCalled; EAdd true; EDial true; EOpen true; ESend true; ERecv RCancel; CReset; EDone;
+   CConnErr; CMonErr;
+   EDial true; EOpen true; ESend true; ERemoveCalled; ERecv RCancel; CReset; EDone; CConnErr; CMonErr;
+   ERemoveReturned true].
+
+Example kf1_log_rejected_by_model : accepts cfg0 log_kf1 = false.
+Proof. vm_compute. reflexivity. Qed.
+
+Example kf1_log_flagged_by_K :
+  k_cause (c_timeout cfg0) 0 false log_kf1 = false /\ k_tags cfg0 log_kf1 = [7%N].
+Proof. vm_compute. split; reflexivity. Qed.
+
+(** the same log with the Reconnect that justifies the cancellation is fine *)
+Example cause_full_nonvacuous :
+  accepts cfg0 (firstn 20 log_kf1 ++ EReconnectCalled :: ERecv RCancel :: EReconnectReturned true
+                  :: skipn 21 log_kf1) = true.
+Proof. vm_compute. reflexivity. Qed.
+
 (** * one_reset_per_stream: successful Sends and Resets alternate *)
 
 Fixpoint alt (open : bool) (g : list event) : bool :=
